@@ -1,10 +1,12 @@
 #!/bin/bash
 # tools/run_seeded.sh [tier] [ids...] - run, for every seeded change, the check(s) listed in its meta.json against a scratch
 # worktree of /repo HEAD with the patch applied; writes seeded/RESULTS.json (id -> {check: exit code}).
+# OUT=<file> redirects the result file and WORKERS=<n> limits the workers per check, so that several instances can share the machine
+# (tools/run_seeded_all.sh runs two halves side by side and merges them).
 tier=${1:-quick}; shift
 cd /verif
 ids=("$@"); [ ${#ids[@]} -eq 0 ] && ids=($(ls seeded | grep -v RESULTS))
-out=seeded/RESULTS.json
+out=${OUT:-seeded/RESULTS.json}
 /venv/bin/python - "$out" <<'P'
 import json,sys,os
 p=sys.argv[1]
